@@ -1412,6 +1412,7 @@ int scpiParser_parseProgramData(lex_state_t * state, scpi_token_t * token) {
     int wsLen;
     int suffixLen;
     int realLen = 0;
+    scpi_bool_t incompleteString;
     realLen += scpiLex_WhiteSpace(state, &tmp);
 
     if (result == 0) result = scpiLex_NondecimalNumericData(state, token);
@@ -1432,8 +1433,10 @@ int scpiParser_parseProgramData(lex_state_t * state, scpi_token_t * token) {
     }
 
     if (result == 0) result = scpiLex_StringProgramData(state, token);
-    if (result == 0) result = scpiLex_ArbitraryBlockProgramData(state, token);
-    if (result == 0) result = scpiLex_ProgramExpression(state, token);
+    /* incomplete string moves to the end of input, there is nothing more to try */
+    incompleteString = (result == 0) && (state->pos != token->ptr);
+    if (result == 0 && !incompleteString) result = scpiLex_ArbitraryBlockProgramData(state, token);
+    if (result == 0 && !incompleteString) result = scpiLex_ProgramExpression(state, token);
 
     realLen += scpiLex_WhiteSpace(state, &tmp);
 
